@@ -156,6 +156,17 @@ def iter_next(e, it):
             return r
         it.done = True
         return none()
+    if k == 'map_while':
+        if it.done:
+            return none()
+        r = iter_next(e, it.inner)
+        if r.var == 'None':
+            return r
+        m = e.call_closure(it.f, [r.f[0].v])
+        if m.var == 'None':
+            it.done = True
+            return none()
+        return m
     if k == 'rev':
         return iter_next_back(e, it.inner)
     if k == 'cloned':
@@ -390,6 +401,11 @@ def _skip(e, c, a):
 @model(r'<.* as Iterator>::take')
 def _take(e, c, a):
     return Iter('take', inner=_self_iter(e, a[0]), n=e.concretize(a[1], 1 << 16))
+
+
+@model(r'<.* as Iterator>::map_while::<.*>')
+def _map_while(e, c, a):
+    return Iter('map_while', inner=_self_iter(e, a[0]), f=a[1], done=False)
 
 
 @model(r'<.* as Iterator>::take_while::<.*>')
